@@ -452,6 +452,10 @@ end seq
 
 /-! ### non-vacuity -/
 
+example : wordCollect.runStack 0 [.int 2, .int 20, .int 10, .nil] = .ok [.vec (.cons (.int 10) (.cons (.int 20) .nil)), .nil] := by decide
+example : wordCollect.runStack 0 [.int 5, .int 2, .int 1] = .err .stackUnderflow := by decide
+example : wordCollect.runStack 1 [.int 2, .int 2, .int 1] = .err .stackUnderflow := by decide
+
 example : KeysComparable (.cons (.int 1) (.str ['x']) (.cons (.tagged (.int 3) .nil) .nil .nil)) [.int 2, .int 3] := by decide
 example : KeysComparable (.cons (.str ['a']) (.int 1) .nil) [.str ['b']] := by decide
 example : ¬ KeysComparable (.cons (.str ['a']) (.int 1) .nil) [.int 5] := by decide
